@@ -174,8 +174,7 @@ func runC19(seed int64, n int, tier string, outDir string) (*Report, error) {
 		emit(ops, fmt.Sprintf("seed=%d index=%d", seed, i), idx)
 		idx++
 	}
-	p1, err := cw.Close()
-	if err != nil {
+	if err := rep.AddCases(cw); err != nil {
 		return nil, err
 	}
 
@@ -232,12 +231,9 @@ func runC19(seed int64, n int, tier string, outDir string) (*Report, error) {
 		}
 	}
 	rep.Count(fmt.Sprintf("equality-pairs:%d", k))
-	p2, err := cw2.Close()
-	if err != nil {
+	if err := rep.AddCases(cw2); err != nil {
 		return nil, err
 	}
-	rep.CaseFiles = []string{p1, p2}
-	rep.CoqCases = cw.total + cw2.total
 	rep.Exhaustive = true
 	rep.Notes = append(rep.Notes, fmt.Sprintf("histories exhaustive up to length %d over an alphabet of %d operations; equality exhaustive over %d lists", bound, len(alphabet), len(lists)))
 	return rep, nil
